@@ -3,7 +3,10 @@
    One call that reaches this accounting code is abstracted to three observable facts.  Calls that leave
    earlier do not touch the counter: errors, the legacy path, and the "header not complete yet" return of
    zdss_loadHeader (which consumes all offered input, so it is a zero-progress call only when the caller
-   offers no input at all).  Model only - no proofs in this file. *)
+   offers no input at all).  [ob_progress] is the C condition as evaluated by the accounting code: a call that
+   consumes the last byte of a frame whose output is not flushed yet and then takes it back (hostage byte,
+   input->pos--) is a progress call for the counter although the caller sees pos unchanged - so the caller can
+   observe at most one more zero-progress return than the counter counts.  Model only - no proofs in this file. *)
 From Coq Require Import NArith List Bool.
 From ZV.Gen Require Import Gen_C03.
 Import ListNotations.
